@@ -79,13 +79,13 @@ theorem opModeOK_of_opTarOK (op : Op) (h : opTarOK op = true) : opModeOK op := b
 structure NB (fs : FS) : Prop where
   ok : ∀ i, nodeOK (fs.node i) = true
 
-theorem nodeOK_default : nodeOK (default : Inode) = true := by decide
+theorem nodeOK_dflt : nodeOK (default : Inode) = true := by decide
 
 theorem NB.empty : NB FS.empty := by
   refine ⟨fun i => ?_⟩
   rcases i with _ | i
   · decide
-  · rw [node_empty_succ]; exact nodeOK_default
+  · rw [node_empty_succ]; exact nodeOK_dflt
 
 theorem NB.of_nodes_eq {fs fs' : FS} (h : fs'.nodes = fs.nodes) (hb : NB fs) : NB fs' := by
   refine ⟨fun i => ?_⟩
